@@ -156,6 +156,11 @@ def _after(ev, result=None):
         _tl.busy = False
 
 
+import weakref
+
+_open_proxies = weakref.WeakSet()
+
+
 class FileProxy:
     """Delegating proxy around a real file object; selected methods are events."""
 
@@ -163,6 +168,13 @@ class FileProxy:
         object.__setattr__(self, '_f', fobj)
         object.__setattr__(self, '_rel', rel)
         object.__setattr__(self, '_w', any(c in mode for c in 'wxa+'))
+        _open_proxies.add(self)
+
+    def __hash__(self):
+        return id(self)
+
+    def __eq__(self, other):
+        return self is other
 
     def __getattr__(self, name):
         return getattr(self._f, name)
@@ -266,6 +278,12 @@ def _wrap2(name):
             return real(src, dst, *a, **k)
         ev = _emit('os.' + name, r1 or str(src), r2 or str(dst))
         r = real(src, dst, *a, **k)
+        if name in ('rename', 'replace') and r1 and r2:
+            # a file that is still open under its old name keeps being written through the same handle: from now on its events
+            # belong to the new name (e.g. a sandbox file that has been moved into loose/ is no longer private to its writer)
+            for p in list(_open_proxies):
+                if p._rel == r1 and not p._f.closed:
+                    object.__setattr__(p, '_rel', r2)
         _after(ev, r)
         return r
     wrapper.__name__ = name
